@@ -57,6 +57,7 @@ SCHEMA = {
     ('Mininec', 'm'): 'real',
     ('Mininec', 'w'): 'real',
     ('Mininec', 'w2'): 'real',
+    ('Mininec', 'power'): 'real',          # total input power of all sources (set by compute)
     ('Mininec', 'srm'): 'real',
     ('Mininec', 'wavelen'): 'real',
     ('Mininec', 'current'): 'arr1:complex',
